@@ -72,6 +72,11 @@ func genMember(seed uint64, tier string, events bool) *Case {
 			c.Steps = append(c.Steps, Step{Op: "update", I: g.Intn(ng)})
 		case x < 18 && events:
 			c.Steps = append(c.Steps, Step{Op: "drain"})
+			if c.P["snapshot"] == 1 && c.P["burst"] == 0 && g.Bool(0.15) {
+				// one flapping member outruns the application by more than any stage holds
+				c.P["burst"] = 1
+				c.Steps = append(c.Steps, Step{Op: "burst", I: g.Intn(ng), K: 1040 + g.Intn(200)})
+			}
 		default:
 			// advances that land just before, on and after deadlines and reap ticks
 			base := []int64{c.P["reap"], c.P["reconnect"], c.P["tombstone"], 1, 3}[g.Intn(5)] * 1000
@@ -156,6 +161,7 @@ func execMember(r *Run) {
 	lt := uint64(5)
 	received := map[string][]string{} // per member: event kinds delivered to the application
 	reaps := map[string]int{}
+	revs := map[string][]int{} // per member: the revision (carried in its tags) of each event received
 	mayHaveDropped := false
 	kindOf := func(t serf.EventType) string {
 		return strings.TrimPrefix(t.String(), "member-")
@@ -168,6 +174,9 @@ func execMember(r *Run) {
 						continue
 					}
 					received[m.Name] = append(received[m.Name], kindOf(me.Type))
+					var rv int
+					fmt.Sscanf(m.Tags["role"], "rev%d", &rv)
+					revs[m.Name] = append(revs[m.Name], rv)
 					if me.Type == serf.EventMemberReap {
 						reaps[m.Name]++
 					}
@@ -263,6 +272,28 @@ func execMember(r *Run) {
 			nd.conf().Events.NotifyLeave(gnode(k))
 			gm.up = false
 			r.Fault("member-down")
+		case "burst":
+			// a member that flaps far more often than the application reads: every stage of
+			// the pipeline behind the node fills up (the stage behind the snapshot tee holds
+			// 1024 events). Whatever is dropped then, the order of what arrives stays.
+			if !events || r.C.P["snapshot"] != 1 {
+				continue // (without the tee the node itself waits for the application)
+			}
+			for i := 0; i < s.K; i++ {
+				if gm.up {
+					nd.conf().Events.NotifyLeave(gnode(k))
+					gm.up = false
+				} else {
+					gm.rev++
+					nd.conf().Events.NotifyJoin(gnode(k))
+					gm.up = true
+				}
+				c.Wait()
+				observe("burst")
+			}
+			mayHaveDropped = true
+			r.Fault("member-flap-burst")
+			continue
 		case "update":
 			if !gm.up {
 				continue
@@ -425,6 +456,14 @@ func execMember(r *Run) {
 	}
 	for k, gm := range ghosts {
 		got := received[name(k)]
+		// every join and update carries a new revision of the member's tags, so the revisions
+		// seen in an in-order subsequence of the member's history never go back
+		for i, rv := range revs[name(k)] {
+			if i > 0 && rv < revs[name(k)][i-1] {
+				r.Fail("member-events-out-of-order", "C16 order", "application received %s (revision %d of member %s) after %s (revision %d): events %v with revisions %v are not in the order of the member's history", got[i], rv, name(k), got[i-1], revs[name(k)][i-1], got, revs[name(k)])
+				return
+			}
+		}
 		// in-order subsequence
 		j := 0
 		for _, ev := range got {
